@@ -351,6 +351,14 @@ func ccWaitersCase(c *mon.Case) {
 				if k == setEmptyAt {
 					v = 0
 				}
+				if (j*5+k)%7 == 6 {
+					// a SwapValue callback that panics (the caller recovers): the cell keeps its content and stays usable
+					func() {
+						defer func() { _ = recover() }()
+						ctr.SwapValue(func(int) int { panic("SwapValue callback panics (recovered by its caller)") })
+					}()
+					c.Count("panicking_swap_callbacks", 1)
+				}
 				s0 := c.Rec(name, "write", v)
 				if (j+k)%3 == 0 {
 					ctr.SwapValue(func(int) int { return v })
